@@ -215,18 +215,27 @@ def r3(ctx, rep, prog):
     ok = bool(pce) and reaches_try(pc, pce[0]['dest']) == 'try' and all(prog.dominates(pc, pce[0]['bb'], a['bb']) for a in agg(pc, 'rust_types::RustConst', 'RustConst'))
     rep.check(ok, 'R3', 'parse_const:RustConstExprInvalid', 'parse_const_expr(..)? dominates RustConst', 'parse_const builds a RustConst without checking that the expression is an integer literal', {'file': pc['file'], 'line': pc['line']})
     # unit/algebraic decision on the filtered, parsed variants
-    pe = ctx.fn('parse_enum', file='parser.rs')
+    pe = ctx.fnx('parse_enum', file='parser.rs')
     unit = [c for c in pe['calls'] if str(c.get('f', '')).replace(' ', '').endswith('RustEnum::Unit')]
     if not unit:
         raise core.Incomplete('parse_enum: RustEnum::Unit construction not found (astq)')
-    frames = [fr for fr in unit[0]['guard'] if fr.get('k') == 'if']
-    decides = [fr for fr in frames if '"all"' in json.dumps(fr['c']) or 'all' in vt.show(fr['c'])]
+    from . import c07
+    from .. import guards
     ok = False
     why = 'no all-variants-are-unit test found'
-    for fr in decides:
-        calls = [x for x in vt.walk(fr['c']) if x.get('k') == 'call']
+    for fr in unit[0]['guard']:
+        if fr.get('k') != 'if':
+            continue
+        cond, neg = fr['c'], bool(fr.get('neg'))
+        red = guards.reduce_tag_test(cond)
+        if red is not None:
+            cond, neg = red[0], neg != red[1]
+        form = c07.all_unit_form(vt.strip(cond)) if not neg else None
+        if form is None:
+            continue
+        calls = [x for x in vt.walk(vt.strip(cond)) if x.get('k') == 'call']
         has_filter = any(x.get('f') == 'filter' and 'is_skipped' in json.dumps(x.get('args')) for x in calls)
-        on_parsed = 'RustEnumVariant :: Unit' in json.dumps(fr['c']) or 'RustEnumVariant::Unit' in vt.show(fr['c'])
+        on_parsed = form == 'parsed'
         ok = has_filter and on_parsed
         why = 'the all-unit test is evaluated on the raw syn variants, before the skip filter' if not has_filter else ('the test does not inspect the parsed RustEnumVariant values' if not on_parsed else '')
     rep.check(ok, 'R3', 'parse_enum:decision-on-filtered-variants', 'unit-vs-algebraic decided on the non-skipped, parsed variants', f"parse_enum: {why} — a data-carrying variant under serde(skip)/typeshare(skip) still forces tag+content (skipping must make the run succeed), and tag/content on an effectively-unit enum is no longer rejected", {'file': pe['file'], 'line': unit[0].get('line')})
